@@ -201,8 +201,8 @@ MUTANTS = [
     {"id": "disconnect-clears-table", "file": "brokerclient.py",
      "old": "            self.proto.transport.loseConnection()\n\n    def close", "new": "            self.proto.transport.loseConnection()\n            self.requests.clear()\n\n    def close",
      "expect": "C11.R5"},
-    {"id": "bootstrap-no-timeout", "file": "client.py", "old": "response = yield protocol.request(request).addTimeout(self.timeout, self.reactor)",
-     "new": "response = yield protocol.request(request)", "expect": "C11.R6"},
+    {"id": "bootstrap-no-timeout", "file": "client.py", "old": "response = yield self._until_close(protocol.request(request).addTimeout(self.timeout, self.reactor))",
+     "new": "response = yield self._until_close(protocol.request(request))", "expect": "C11.R6"},
     {"id": "join-no-minimum", "file": "_group.py", "old": "            min_timeout=35.0,\n", "new": "", "expect": "C11.R7"},
     {"id": "kwargs-dropped", "file": "client.py", "old": "            broker, request_id, encoded_request, expectResponse=True, **kwargs\n",
      "new": "            broker, request_id, encoded_request, expectResponse=True\n", "expect": "C11.R7"},
